@@ -157,8 +157,18 @@ def oracle_group(func, members, positions, ddof=None, q=None):
             if len(ok) == 0:
                 return NAN
             return ok[0] if func == "nanfirst" else ok[-1]
-        if func in ("argmax", "argmin", "nanargmax", "nanargmin"):
+        if func in ("argmax", "argmin"):
+            if members.dtype.kind == "f" and np.isnan(members).any():
+                return "UNSPEC"  # property: arg* only on NaN-free groups
             return int(positions[NP_FUNCS[func](members)])
+        if func in ("nanargmax", "nanargmin"):
+            ok = ~np.isnan(members) if members.dtype.kind == "f" else np.ones(len(members), bool)
+            if not ok.any():
+                return "UNSPEC"  # property: nanarg* only on groups not entirely NaN
+            # first occurrence of the extreme among the non-NaN members (np.nanargmax itself substitutes
+            # -inf for NaN and would return a NaN's position when the true maximum is -inf)
+            f = np.argmax if func == "nanargmax" else np.argmin
+            return int(positions[ok][f(members[ok])])
         f = NP_FUNCS[func]
         if func in ("var", "nanvar", "std", "nanstd"):
             return f(members, ddof=ddof or 0)
@@ -196,5 +206,6 @@ def oracle(case: dict):
         if len(members) == 0 or nvalid < mc:
             out.append("FILL" if fill is None else fnum(fill))
         else:
-            out.append(fnum(oracle_group(func, members, positions, case.get("ddof"), case.get("q"))))
+            r = oracle_group(func, members, positions, case.get("ddof"), case.get("q"))
+            out.append(r if isinstance(r, str) else fnum(r))
     return {"result": out, "groups": [fnum(g) for g in groups]}
